@@ -1,4 +1,5 @@
 #!/bin/sh
+export GOSYM_EVIDENCE_DIR=/tmp/gosym-evidence-scratch; mkdir -p $GOSYM_EVIDENCE_DIR
 # usage: trymutant.sh <patch.diff> <tier> <id>...   — applies the patch to /repo, runs the checks, reverts.
 patch=$1; tier=$2; shift 2
 cd /repo || exit 2
